@@ -134,6 +134,10 @@ func VerifC10Adversary() {
 	vfs.StoreRoots(ctx, inner, t0)
 	r1, r1prev, r2, m, stranger := vfParty{2, 0, 10}, vfParty{6, 3, 13}, vfParty{3, 1, 11}, vfParty{4, 2, 12}, vfParty{2, 4, 10}
 	rec1, rec2, recM := r1.record("n1", "state-1"), r2.record("n1", "state-2"), m.record("n2", "state-m")
+	r1state := "state-1"
+	if vf.Bool("R1-carries-no-state") {
+		rec1.State, r1state = nil, ""
+	}
 	hasPrev := vf.Bool("R1-remembers-a-previous-key")
 	if hasPrev {
 		if err := rec1.SetPreviousEncryptionKey(r1prev.record("n1", "")); err != nil {
@@ -151,9 +155,11 @@ func VerifC10Adversary() {
 		}
 	}
 	loader := vf.Bool("storage-supports-node-id-lookup")
+	var nidSt *vfs.NodeIdStorage
 	var st nodeenrollment.Storage = inner
 	if loader {
-		st = &vfs.NodeIdStorage{Storage: inner}
+		nidSt = &vfs.NodeIdStorage{Storage: inner}
+		st = nidSt
 	}
 
 	// the inner fetch request
@@ -179,11 +185,17 @@ func VerifC10Adversary() {
 	}
 	// how the request identifies the node
 	named := vf.Int("named-certificate-key", 2, 5) // 5: no such record
-	byNodeId := vf.Bool("request-names-node-id")
 	req := &types.RotateNodeCredentialsRequest{CertificatePublicKeyPkix: vf.Pkix(named), EncryptedFetchNodeCredentialsRequest: payload}
-	if byNodeId {
+	switch vf.Int("request-names-node-id", 0, 2) {
+	case 1:
 		req.NodeId = "n1"
+	case 2:
+		req.NodeId = "n9" // a node ID under which nothing is stored
+		if nidSt != nil {
+			nidSt.EmptyAsSet = vf.Bool("storage-reports-an-unknown-node-id-as-an-empty-set")
+		}
 	}
+	byNodeId := req.NodeId != ""
 	snap := inner.Snapshot()
 	// whatever state option the caller passes, the old record's state is what carries over (the call without any
 	// option is the honest-history harness)
@@ -194,7 +206,7 @@ func VerifC10Adversary() {
 	useSet := byNodeId && loader
 	inScope := func(p vfParty) bool {
 		if useSet {
-			return p.cert == 2 || p.cert == 3
+			return req.NodeId == "n1" && (p.cert == 2 || p.cert == 3)
 		}
 		return p.cert == named
 	}
@@ -218,7 +230,7 @@ func VerifC10Adversary() {
 		newRec, lerr := types.LoadNodeInformation(ctx, inner, newId)
 		vf.Assert("new-key-registered", lerr == nil)
 		if auth != nil && lerr == nil {
-			want := map[int]string{2: "state-1", 3: "state-2", 4: "state-m"}[auth.cert]
+			want := map[int]string{2: r1state, 3: "state-2", 4: "state-m"}[auth.cert]
 			vf.Assert("state-carried-over-from-the-authenticating-record", vfs.StateValue(newRec.State) == want)
 			out := new(types.FetchNodeCredentialsResponse)
 			vf.Assert("reply-opens-under-the-authenticating-records-current-key", nodeenrollment.DecryptMessage(ctx, resp.EncryptedFetchNodeCredentialsResponse, auth.creds(), out) == nil)
